@@ -1039,6 +1039,13 @@ impl ASN1Value {
                 ASN1Type::ElsewhereDeclaredType(e),
                 ASN1Value::LinkedNestedValue { supertypes, value },
             ) => {
+                if supertypes.contains(&e.identifier) {
+                    return Err(grammar_error!(
+                        LinkerError,
+                        "Circular type reference: {} is defined in terms of itself",
+                        e.identifier
+                    ));
+                }
                 supertypes.push(e.identifier.clone());
                 if let ASN1Value::LinkedIntValue { integer_type, .. } = value.borrow_mut() {
                     let int_type = e.constraints.iter().fold(IntegerType::Unbounded, |acc, c| {
@@ -1564,6 +1571,13 @@ impl ASN1Value {
                 ty: ASN1Type::ElsewhereDeclaredType(elsewhere),
                 ..
             })) => {
+                if supertypes.contains(&elsewhere.identifier) {
+                    return Err(grammar_error!(
+                        LinkerError,
+                        "Circular type reference: {} is defined in terms of itself",
+                        elsewhere.identifier
+                    ));
+                }
                 supertypes.push(elsewhere.identifier.clone());
                 Self::link_enum_or_distinguished(tlds, elsewhere, identifier, supertypes)
             }
